@@ -36,6 +36,7 @@ class Result:
         self.notes = []
         self.extra = {}
         self.machinery = None
+        self.classes = {}         # class of case (as computed by the spec) -> lines
 
 
 def sig_of_rejection(rej, scen, defs):
@@ -72,6 +73,8 @@ def run_batches(res, work, batches, clause_filter=None, nshards=None, want_props
         res.states += st["states"]
         res.transitions += st["transitions"]
         res.scenarios += len(b.scenarios)
+        for k, v in st.get("classes", {}).items():
+            res.classes[k] = res.classes.get(k, 0) + v
         by_sid = {sc["sid"]: sc for sc in b.scenarios}
         for sc in b.scenarios:
             res.distinct.add(sc.get("dkey", sc["sid"]))
@@ -165,6 +168,7 @@ def finish(res, rule, assumptions, exhaustive=False):
         "known_finding_hits": {s: n for s, (n, k) in res.known_hits.items()},
         "rejections_of_other_properties": res.other,
         "notes": res.notes,
+        "case_classes_by_spec": res.classes,
     }
     cov.update(res.extra)
     vlib.write_evidence(res.prop, res.tier, res.seed, cov, wall, nviol, assumptions)
